@@ -1,8 +1,535 @@
-//! Reference fold (executable spec of C09) and classification of departures.
+//! Reference fold (executable spec of C09, written independently of the model) and the
+//! classification of departures into finding classes.
+//!
+//! Spec used (lenient wherever the property text leaves room, so that a failure is a real one):
+//! * groups = distinct (bucket, BY values) of the rows; a null BY value is a group of its own;
+//! * COUNT = rows; COUNT f = rows with non-null f; COUNT UNIQUE f = distinct non-null values
+//!   (one more is accepted when nulls are present);
+//! * TOTAL f = exact sum (integer column) / float sum (float column); AVG f = mean of the
+//!   non-null values (0 or null accepted for none); MIN/MAX f = numeric on numeric columns,
+//!   byte-lexicographic on string columns, nulls ignored (""/null accepted for none);
+//! * TOTAL/AVG of string or bool columns, mixed-type columns, NaN/inf, and timestamps outside
+//!   chrono's range are left unspecified (oracle skipped, the exact correspondence still runs).
 use crate::cases::Case;
 use crate::types::*;
+use crate::{col_typed, split_possible};
 use snel_harness::out::Stream;
+use std::collections::BTreeMap;
 
-pub fn check(s: &mut Stream, _i: u64, _case: &Case, _parts: &[Flows; 3], _tables: &[(Option<Table>, bool)]) {
-    s.oracle_ok();
+#[derive(Clone, Copy, PartialEq, Eq, Debug)]
+enum Kind {
+    Empty,
+    Int,
+    Float,
+    Str,
+    Bool,
+    Mixed,
+}
+
+fn col_kind(rows: &[Vec<Sc>], f: usize) -> Kind {
+    let mut k = Kind::Empty;
+    for r in rows {
+        let c = match r.get(f) {
+            Some(Sc::Null) | None => continue,
+            Some(Sc::Int(_)) => Kind::Int,
+            Some(Sc::Float(_)) => Kind::Float,
+            Some(Sc::Str(_)) => Kind::Str,
+            Some(Sc::Bool(_)) => Kind::Bool,
+            Some(Sc::Ts(_)) | Some(Sc::Bin) => Kind::Mixed,
+        };
+        k = if k == Kind::Empty || k == c { c } else { Kind::Mixed };
+    }
+    k
+}
+
+fn is_leap(y: i64) -> bool {
+    (y % 4 == 0 && y % 100 != 0) || y % 400 == 0
+}
+
+/// start of the bucket of `t` (seconds, UTC, weeks start on Monday) — by walking the calendar
+pub fn ref_bucket(g: Gran, t: i64) -> i64 {
+    let day = t.div_euclid(86_400);
+    match g {
+        Gran::Hour => t.div_euclid(3600) * 3600,
+        Gran::Day => day * 86_400,
+        Gran::Week => {
+            // 1970-01-01 was a Thursday
+            let dow = (day + 3).rem_euclid(7);
+            (day - dow) * 86_400
+        }
+        Gran::Month | Gran::Year => {
+            let cyc = day.div_euclid(146_097);
+            let mut d = day - cyc * 146_097;
+            let mut y = 1970 + cyc * 400;
+            loop {
+                let len = if is_leap(y) { 366 } else { 365 };
+                if d >= len {
+                    d -= len;
+                    y += 1;
+                } else {
+                    break;
+                }
+            }
+            if g == Gran::Year {
+                return (day - d) * 86_400;
+            }
+            let ml = [31, if is_leap(y) { 29 } else { 28 }, 31, 30, 31, 30, 31, 31, 30, 31, 30, 31];
+            for len in ml {
+                if d >= len {
+                    d -= len;
+                } else {
+                    break;
+                }
+            }
+            (day - d) * 86_400
+        }
+    }
+}
+
+const CHRONO_MIN: i64 = -8_334_601_228_800;
+const CHRONO_MAX: i64 = 8_210_266_876_799;
+
+#[derive(Clone, Debug, PartialEq, Eq, PartialOrd, Ord)]
+enum BRef {
+    NoPer,
+    NoTime,
+    At(i64),
+}
+
+type EKey = (BRef, Vec<Option<String>>);
+
+fn group_val(c: &Sc) -> Option<String> {
+    match c {
+        Sc::Null => None,
+        Sc::Int(i) => Some(i.to_string()),
+        Sc::Float(f) => Some(f.to_string()),
+        Sc::Str(s) => Some(s.clone()),
+        Sc::Bool(b) => Some(b.to_string()),
+        Sc::Ts(t) => Some(t.to_string()),
+        Sc::Bin => None,
+    }
+}
+
+fn cell<'a>(r: &'a [Sc], f: usize) -> &'a Sc {
+    static NULL: Sc = Sc::Null;
+    r.get(f).unwrap_or(&NULL)
+}
+
+fn canon_int_like(s: &str) -> Option<String> {
+    s.parse::<i64>().ok().map(|i| i.to_string())
+}
+
+struct Mismatch {
+    class: &'static str,
+    detail: String,
+}
+
+/// The key the code reports the expected group under, and why it may differ.
+fn impl_key(k: &EKey) -> (Option<(Option<u64>, Vec<String>)>, Option<&'static str>) {
+    let mut why = None;
+    let b = match &k.0 {
+        BRef::NoPer => None,
+        BRef::NoTime => Some(0u64),
+        BRef::At(b) if *b >= 0 => Some(*b as u64),
+        BRef::At(_) => {
+            why = Some("bucket-negative-collapsed");
+            None
+        }
+    };
+    let mut gs = vec![];
+    for g in &k.1 {
+        match g {
+            None => return (None, Some("group-null-or-empty-dropped")),
+            Some(s) if s.is_empty() => return (None, Some("group-null-or-empty-dropped")),
+            Some(s) => match canon_int_like(s) {
+                Some(c) if &c != s => {
+                    why = Some("group-int-like-string-canonicalised");
+                    gs.push(c)
+                }
+                _ => gs.push(s.clone()),
+            },
+        }
+    }
+    (Some((b, gs)), why)
+}
+
+fn ulps_close(a: f64, b: f64) -> bool {
+    if a == b {
+        return true;
+    }
+    let d = (a - b).abs();
+    d <= 1e-12 * a.abs().max(b.abs()).max(1e-300)
+}
+
+/// None = unspecified (skip); Some(Ok) / Some(Err(class))
+fn check_metric(
+    m: &Metric,
+    case: &Case,
+    rows: &[&Vec<Sc>],
+    flows: &Flows,
+    got: &OutV,
+) -> Option<Result<(), Mismatch>> {
+    let all = &case.rows;
+    let bad = |class: &'static str, exp: String| {
+        Some(Err(Mismatch { class, detail: format!("{} expected {} got {}", m.tok(), exp, got.tok()) }))
+    };
+    let f = m.field().unwrap_or(usize::MAX);
+    let kind = if f == usize::MAX { Kind::Empty } else { col_kind(all, f) };
+    if kind == Kind::Mixed {
+        return None;
+    }
+    let cells: Vec<&Sc> = rows.iter().map(|r| cell(r, f)).collect();
+    let nonnull: Vec<&Sc> = cells.iter().copied().filter(|c| !c.is_null()).collect();
+    let has_null = nonnull.len() < cells.len();
+    // does some batch hold a null of this group's field in a column that is not typed i64?
+    let null_in_string_col = || {
+        flows.iter().flatten().any(|b| !col_typed(b, f) && b.iter().any(|r| cell(r, f).is_null()))
+    };
+    match m {
+        Metric::CountAll => {
+            if *got == OutV::Int(rows.len() as i64) {
+                Some(Ok(()))
+            } else {
+                bad("-", rows.len().to_string())
+            }
+        }
+        Metric::CountField(_) => {
+            if *got == OutV::Int(nonnull.len() as i64) {
+                Some(Ok(()))
+            } else if has_null && null_in_string_col() {
+                bad("count-field-null-in-string-column", nonnull.len().to_string())
+            } else {
+                bad("-", nonnull.len().to_string())
+            }
+        }
+        Metric::CountUnique(_) => {
+            let mut d: Vec<String> = nonnull.iter().map(|c| c.token()).collect();
+            d.sort();
+            d.dedup();
+            let lo = d.len() as i64;
+            let hi = lo + has_null as i64;
+            // with no non-null value at all the code's single "" is also fine
+            let ok = matches!(got, OutV::Int(v) if (*v >= lo && *v <= hi) || (lo == 0 && *v == 1));
+            if ok {
+                Some(Ok(()))
+            } else if flows.iter().flatten().any(|b| col_typed(b, f) && b.iter().any(|r| matches!(cell(r, f), Sc::Int(_)))) {
+                bad("count-unique-typed-int-column", format!("{lo}..{hi}"))
+            } else {
+                bad("-", format!("{lo}..{hi}"))
+            }
+        }
+        Metric::Total(_) | Metric::Avg(_) => {
+            let is_avg = matches!(m, Metric::Avg(_));
+            match kind {
+                Kind::Str | Kind::Bool => None,
+                Kind::Int | Kind::Empty => {
+                    let sum: i128 = nonnull.iter().map(|c| if let Sc::Int(i) = c { *i as i128 } else { 0 }).sum();
+                    let n = nonnull.len();
+                    let fits = sum >= i64::MIN as i128 && sum <= i64::MAX as i128;
+                    let ok = if is_avg {
+                        if n == 0 {
+                            matches!(got, OutV::Null) || *got == OutV::Avg(0f64.to_bits())
+                        } else {
+                            matches!(got, OutV::Avg(b) if ulps_close(f64::from_bits(*b), sum as f64 / n as f64))
+                        }
+                    } else {
+                        fits && *got == OutV::Int(sum as i64)
+                    };
+                    if ok {
+                        Some(Ok(()))
+                    } else if !fits {
+                        bad("total-avg-i64-wrap", sum.to_string())
+                    } else {
+                        bad("-", format!("sum {sum} n {n}"))
+                    }
+                }
+                Kind::Float => {
+                    let vals: Vec<f64> = nonnull.iter().map(|c| if let Sc::Float(x) = c { *x } else { 0.0 }).collect();
+                    if vals.iter().any(|v| !v.is_finite()) {
+                        return None;
+                    }
+                    let sum: f64 = vals.iter().sum();
+                    let ok = if is_avg {
+                        if vals.is_empty() {
+                            matches!(got, OutV::Null) || *got == OutV::Avg(0f64.to_bits())
+                        } else {
+                            matches!(got, OutV::Avg(b) if ulps_close(f64::from_bits(*b), sum / vals.len() as f64))
+                        }
+                    } else {
+                        matches!(got, OutV::Int(v) if ulps_close(*v as f64, sum))
+                    };
+                    if ok {
+                        Some(Ok(()))
+                    } else if vals.iter().any(|v| v.to_string().parse::<i64>().is_err()) {
+                        bad("total-avg-nonint-ignored", format!("sum {sum} n {}", vals.len()))
+                    } else {
+                        bad("-", format!("sum {sum}"))
+                    }
+                }
+                Kind::Mixed => None,
+            }
+        }
+        Metric::Min(_) | Metric::Max(_) => {
+            let is_min = matches!(m, Metric::Min(_));
+            if nonnull.is_empty() {
+                return if matches!(got, OutV::Null) || *got == OutV::Str(String::new()) {
+                    Some(Ok(()))
+                } else {
+                    bad("-", "none".into())
+                };
+            }
+            let null_class = if is_min && has_null { Some("minmax-null-as-empty") } else { None };
+            match kind {
+                Kind::Int => {
+                    let it = nonnull.iter().map(|c| if let Sc::Int(i) = c { *i } else { 0 });
+                    let e = if is_min { it.min().unwrap() } else { it.max().unwrap() };
+                    if *got == OutV::Int(e) {
+                        Some(Ok(()))
+                    } else {
+                        bad("-", e.to_string())
+                    }
+                }
+                Kind::Float => {
+                    let vals: Vec<f64> = nonnull.iter().map(|c| if let Sc::Float(x) = c { *x } else { 0.0 }).collect();
+                    if vals.iter().any(|v| v.is_nan()) {
+                        return None;
+                    }
+                    let e = if is_min {
+                        vals.iter().cloned().fold(f64::INFINITY, f64::min)
+                    } else {
+                        vals.iter().cloned().fold(f64::NEG_INFINITY, f64::max)
+                    };
+                    let ok = match got {
+                        OutV::Int(i) => *i as f64 == e,
+                        OutV::Str(s) => s.parse::<f64>().map(|v| v == e).unwrap_or(false),
+                        _ => false,
+                    };
+                    if ok {
+                        Some(Ok(()))
+                    } else if null_class.is_some() && *got == OutV::Str(String::new()) {
+                        bad("minmax-null-as-empty", e.to_string())
+                    } else {
+                        bad("minmax-float-as-string", e.to_string())
+                    }
+                }
+                Kind::Str | Kind::Bool => {
+                    let strs: Vec<String> = nonnull.iter().map(|c| group_val(c).unwrap_or_default()).collect();
+                    let e = if is_min { strs.iter().min().unwrap() } else { strs.iter().max().unwrap() };
+                    let ok = match got {
+                        OutV::Str(s) => s == e,
+                        OutV::Int(i) => &i.to_string() == e,
+                        _ => false,
+                    };
+                    if ok {
+                        Some(Ok(()))
+                    } else if null_class.is_some() && *got == OutV::Str(String::new()) {
+                        bad("minmax-null-as-empty", hexq(e))
+                    } else if strs.iter().any(|s| s.parse::<i64>().is_ok()) {
+                        bad("minmax-int-like-string", hexq(e))
+                    } else {
+                        bad("-", hexq(e))
+                    }
+                }
+                _ => None,
+            }
+        }
+    }
+}
+
+fn hexq(s: &str) -> String {
+    format!("\"{}\"", s.escape_default())
+}
+
+/// Compare one implementation table with the reference fold. `None` = unspecified case.
+fn check_table(case: &Case, flows: &Flows, t: &Table) -> Option<Result<(), Mismatch>> {
+    let p = &case.plan;
+    let rows = &case.rows;
+    // applicability
+    let mut used: Vec<usize> = p.metrics.iter().filter_map(|m| m.field()).collect();
+    if let Some(g) = &p.group_by {
+        used.extend(g.iter().copied());
+    }
+    for f in &used {
+        if col_kind(rows, *f) == Kind::Mixed {
+            return None;
+        }
+    }
+    if p.bucket.is_some() {
+        for r in rows {
+            match cell(r, p.tf) {
+                Sc::Int(t) if *t < CHRONO_MIN + 8 * 86_400 || *t > CHRONO_MAX => return None,
+                Sc::Int(_) | Sc::Null => {}
+                // PER … USING a field that holds strings / floats / other things: unspecified
+                _ => return None,
+            }
+        }
+    }
+    let split = split_possible(p, flows);
+    // expected groups
+    let mut exp: BTreeMap<EKey, Vec<&Vec<Sc>>> = BTreeMap::new();
+    for r in rows {
+        let b = match p.bucket {
+            None => BRef::NoPer,
+            Some(g) => match cell(r, p.tf) {
+                Sc::Int(t) => BRef::At(ref_bucket(g, *t)),
+                _ => BRef::NoTime,
+            },
+        };
+        let gs: Vec<Option<String>> = match &p.group_by {
+            None => vec![],
+            Some(g) => g.iter().map(|f| group_val(cell(r, *f))).collect(),
+        };
+        exp.entry((b, gs)).or_default().push(r);
+    }
+    // where the code puts them
+    let mut by_impl: BTreeMap<(Option<u64>, Vec<String>), Vec<(&EKey, Option<&'static str>)>> = BTreeMap::new();
+    for k in exp.keys() {
+        match impl_key(k) {
+            (None, why) => {
+                // a group the code never reports
+                return Some(Err(Mismatch {
+                    class: if split { "columnar-key-split" } else { why.unwrap_or("-") },
+                    detail: format!("group {:?} is not reported", k),
+                }));
+            }
+            (Some(ik), why) => by_impl.entry(ik).or_default().push((k, why)),
+        }
+    }
+    for (ik, eks) in &by_impl {
+        if eks.len() > 1 {
+            let why = eks.iter().find_map(|(_, w)| *w).unwrap_or_else(|| {
+                if eks.iter().any(|(k, _)| k.0 == BRef::NoTime) {
+                    "bucket-no-time-as-epoch"
+                } else {
+                    "-"
+                }
+            });
+            return Some(Err(Mismatch { class: why, detail: format!("groups {:?} are reported as one ({:?})", eks, ik) }));
+        }
+        let (ek, why) = eks[0];
+        let got = match t.get(ik) {
+            Some(g) => g,
+            None => {
+                // NoTime rows may also sit under a null bucket
+                let alt = (None, ik.1.clone());
+                match (ek.0 == BRef::NoTime, t.get(&alt)) {
+                    (true, Some(g)) => g,
+                    _ => {
+                        return Some(Err(Mismatch {
+                            class: if split { "columnar-key-split" } else { why.unwrap_or("-") },
+                            detail: format!("group {:?} missing from the table", ek),
+                        }))
+                    }
+                }
+            }
+        };
+        if why == Some("bucket-negative-collapsed") {
+            return Some(Err(Mismatch { class: "bucket-negative-collapsed", detail: format!("bucket of {:?} reported as null", ek) }));
+        }
+        let grows = &exp[ek];
+        for (m, o) in p.metrics.iter().zip(got.iter()) {
+            match check_metric(m, case, grows, flows, o) {
+                None => {}
+                Some(Ok(())) => {}
+                Some(Err(mut mm)) => {
+                    if split {
+                        mm.class = "columnar-key-split";
+                    }
+                    mm.detail = format!("group {:?}: {}", ek, mm.detail);
+                    return Some(Err(mm));
+                }
+            }
+        }
+    }
+    // the empty input: an un-grouped aggregate over nothing reports nothing (accepted) — and
+    // nothing else may appear
+    let expected_keys = by_impl.len();
+    if t.len() > expected_keys {
+        return Some(Err(Mismatch {
+            class: if split { "columnar-key-split" } else { "-" },
+            detail: format!("table has {} groups, reference {}", t.len(), expected_keys),
+        }));
+    }
+    Some(Ok(()))
+}
+
+/// class of the departure of one table from the reference fold (None = it agrees or is unspecified)
+pub fn classify(case: &Case, flows: &Flows, t: &Table) -> Option<String> {
+    match check_table(case, flows, t) {
+        Some(Err(m)) => Some(m.class.to_string()),
+        _ => None,
+    }
+}
+
+/// typedness of the batch column each row's cell of `f` lives in, keyed by row content
+fn typing_signature(flows: &Flows, f: usize) -> Vec<(String, bool)> {
+    let mut v: Vec<(String, bool)> = vec![];
+    for b in flows.iter().flatten() {
+        let t = col_typed(b, f);
+        for r in b {
+            v.push((r.iter().map(|c| c.token()).collect::<Vec<_>>().join(","), t));
+        }
+    }
+    v.sort();
+    v
+}
+
+pub fn check(s: &mut Stream, i: u64, case: &Case, parts: &[Flows; 3], tables: &[(Option<Table>, bool)]) {
+    // 1. each table against the reference fold
+    for (pi, (flows, (t, _))) in parts.iter().zip(tables.iter()).enumerate() {
+        let Some(t) = t else {
+            s.oracle_fail(i, "-", &format!("partition {pi}: implementation error"));
+            continue;
+        };
+        match check_table(case, flows, t) {
+            None => s.tally("oracle:unspecified"),
+            Some(Ok(())) => s.oracle_ok(),
+            Some(Err(m)) => {
+                s.tally(&format!("departure:{}", m.class));
+                s.oracle_fail(i, m.class, &format!("partition {pi}: {} | plan {} rows {}", m.detail, case.plan.header(), body_tokens(&parts[2])));
+            }
+        }
+    }
+    // 2. the same rows split differently must agree
+    let ts: Vec<&Table> = tables.iter().filter_map(|(t, _)| t.as_ref()).collect();
+    if ts.len() == 3 {
+        if ts[0] == ts[1] && ts[1] == ts[2] {
+            s.oracle_ok();
+        } else {
+            let p = &case.plan;
+            let class = if parts.iter().any(|f| split_possible(p, f)) {
+                "columnar-key-split"
+            } else {
+                let mut c = "-";
+                for m in &p.metrics {
+                    let Some(f) = m.field() else { continue };
+                    let sigs: Vec<_> = parts.iter().map(|fl| typing_signature(fl, f)).collect();
+                    if sigs[0] != sigs[1] || sigs[1] != sigs[2] {
+                        c = match m {
+                            Metric::CountField(_) => "count-field-null-in-string-column",
+                            Metric::CountUnique(_) => "count-unique-typed-int-column",
+                            Metric::Min(_) | Metric::Max(_) => "minmax-null-as-empty",
+                            _ => c,
+                        };
+                        if c != "-" {
+                            break;
+                        }
+                    }
+                }
+                c
+            };
+            s.tally(&format!("partition-dependent:{class}"));
+            s.oracle_fail(
+                i,
+                class,
+                &format!(
+                    "same rows, different splits, different tables: {} / {} / {} | plan {}",
+                    table_line(ts[0]),
+                    table_line(ts[1]),
+                    table_line(ts[2]),
+                    p.header()
+                ),
+            );
+        }
+    }
 }
